@@ -459,7 +459,7 @@ func registerFiles(e *Engine) {
 	e.reg("os.Stat", func(c *CallCtx, st *State, args []Value) []Outcome {
 		en := c.E
 		p := en.pathArg(args[0], "os.Stat")
-		if h, ok := en.statHook(st, p); ok {
+		if h, ok := en.statOutcomes(st, p); ok {
 			return h
 		}
 		f := en.fileGet(st, p)
@@ -477,15 +477,3 @@ func registerFiles(e *Engine) {
 	})
 }
 
-// statHook lets a harness supply os.Stat results (C18): zzv.StatPut(path, info, err).
-func (e *Engine) statHook(st *State, path string) ([]Outcome, bool) {
-	c, ok := e.named["stat:"+path]
-	if !ok {
-		return nil, false
-	}
-	v, ok := st.heap[c]
-	if !ok {
-		return nil, false
-	}
-	return one(st, v), true
-}
